@@ -37,6 +37,12 @@ clause "a command that was answered is not sent again" is judged ACROSS the
 operations (the tag object's memory image lives on): no write command may
 reach the tag that is identical to the last write command the tag executed
 and answered for the same memory unit - see _WriteWatch.
+
+Re-activation legs (reactivate_enum, reactivate): the Type 2 tag code senses
+the tag again after a NAK and after protect(password).  Faults there - tag
+not found, communication error inside sense(), tag out of the field from an
+event position counted over commands and polls - followed by FURTHER
+operations on the same tag object: oracle (a) on every one of them.
 """
 import contextlib
 import functools
@@ -74,6 +80,13 @@ ASSUMPTIONS = [
     "about its unit; format() works on a memory view of its own (Topaz: a "
     "new memory image), the judgement restarts after it; the second packet "
     "of the Type 2 SECTOR SELECT is never faulted (as in enum)",
+    "re-activation legs: a tag that is out of the field answers neither "
+    "polls nor commands and keeps its memory; a communication error inside "
+    "the driver's sense_tta is reported by ContactlessFrontend.sense() as "
+    "'no target' (its documented behaviour); faults start after the tag "
+    "object exists (activation itself is not faulted); only Type 2 tag code "
+    "re-activates (tt2.py, tt2_nxp.py - no clf.sense in the other tag "
+    "modules)",
 ]
 
 ERRNO = {"timeout": nfc.tag.TIMEOUT_ERROR, "transmission": nfc.tag.RECEIVE_ERROR,
@@ -959,6 +972,396 @@ def gen_mem_history(tier):
     return s()
 
 
+# --------------------------------------------- faults at the re-activation
+# Type 2 tag code re-activates the tag with clf.sense(): after a NAK answer
+# to READ (reading beyond the physical memory - every dump() of a generic
+# tag ends that way -, a page behind AUTH0 of a read protected NTAG21x),
+# after protect(password) of an NTAG21x.  That exchange is not one of the
+# "command positions" of the legs above: a communication error there, or a
+# tag that is not found again, is reported by sense() as None and the
+# frontend has no target any more (exchange() then returns None).  "Every
+# operation of a tag object" covers what the SAME tag object does from then
+# on.  Several operations on one tag object; the field model _Field lets
+#   * the n-th re-activation poll (and `span`-1 more, 0 = all later ones)
+#     fail: tag not found, or timeout / transmission / protocol error raised
+#     by the driver's sense_tta, or
+#   * the tag leave the field at an event position counted over commands AND
+#     polls (for `span` events, 0 = for good): next to a NAK, at the start of
+#     a later operation, anywhere.
+RE_PW = {"factory": (b"", b"wrong!"), "custom": (b"passPK", b"pbssPK")}
+RE_OPS_ALL = ("ndef", "changed", "write", "present", "dump", "format",
+              "protect", "read", "read-out", "write-page", "auth",
+              "auth-wrong", "protect-pw", "protect-pw-read")
+
+
+class _Field(object):
+    """a tag simulator in a field it may leave, with re-activation polls
+    that may fail.  Counting starts with arm(); ``events`` logs (kind,
+    refused) with refused = no answer / NAK / nothing found."""
+
+    def __init__(self, inner):
+        self.inner = inner
+        self.plan = None
+        self.armed = False
+        self.events = []
+        self.polls = 0
+        self.hits = 0
+
+    def __getattr__(self, name):
+        return getattr(self.inner, name)
+
+    def arm(self, plan):
+        self.plan, self.armed = plan, True
+        self.events, self.polls, self.hits = [], 0, 0
+
+    def _window(self, i):
+        p = self.plan
+        return i >= p["at"] and (p["span"] == 0 or i < p["at"] + p["span"])
+
+    def away(self):
+        return self.armed and self.plan is not None and \
+            self.plan["mode"] == "leave" and self._window(len(self.events))
+
+    def target(self, poll):
+        if not self.armed:
+            return self.inner.target(poll)
+        fail = "none" if self.away() else None
+        if fail is None and self.plan is not None and \
+                self.plan["mode"] == "poll" and self._window(self.polls):
+            fail = self.plan["how"]
+        self.polls += 1
+        if fail is not None:
+            self.hits += 1
+            self.events.append(("poll", True))
+            if fail != "none":
+                raise tagdev.ERR[fail]("sim: injected %s in the "
+                                       "re-activation" % fail)
+            return None
+        r = self.inner.target(poll)
+        self.events.append(("poll", r is None))
+        return r
+
+    def command(self, cmd, timeout=None):
+        if not self.armed:
+            return self.inner.command(cmd, timeout)
+        if self.away():
+            self.hits += 1
+            r = None
+        else:
+            r = self.inner.command(cmd, timeout)
+        self.events.append(("cmd", r is None or (
+            len(r) == 1 and r[0] & 0xFA == 0x00)))
+        return r
+
+
+def re_sim(spec):
+    """-> (simulator, first page behind the physical memory) or None"""
+    if spec["fam"] == "ntag":
+        pwd, pack = (None, None) if spec["pw"] == "factory" else \
+            (b"pass", b"PK")
+        sim = simntag.make(spec["product"], pwd=pwd, pack=pack,
+                           auth0=spec["auth0"], prot=spec["prot"],
+                           ndef=tc.message(spec["ndef"], 3), nak=spec["nak"])
+        return sim, sim.pages
+    b = tc.build(spec["desc"], spec["old"], 5)
+    if b is None:
+        return None
+    mem = b.tag.mem
+    if spec["phys_cut"] and len(mem) - spec["phys_cut"] >= 64:
+        del mem[len(mem) - spec["phys_cut"]:]   # less memory than declared
+    if spec["fam"] == "ul":
+        # an NXP UID: activated as Mifare Ultralight (no GET_VERSION, no
+        # 3DES AUTHENTICATE)
+        mem[0] = 0x04
+        b.tag.uid = bytes(mem[0:3] + mem[4:8])
+    return b.tag, (len(mem) + 3) // 4
+
+
+def re_op(tag, op, spec, out_page):
+    """one operation of the history, documented use only"""
+    if op == "ndef":
+        n = tag.ndef
+        return None if n is None else bytes(n.octets)
+    if op == "changed":
+        n = tag.ndef
+        if n is not None:
+            n.has_changed               # complete update from the tag
+            n = tag.ndef                # "always verify tag.ndef afterwards"
+        return None if n is None else bytes(n.octets)
+    if op == "write":
+        n = tag.ndef
+        if n is None:
+            return "no-ndef"
+        if not n.is_writeable:
+            return "read-only"
+        n.octets = tc.message(min(19, n.capacity), 9)
+        return "written"
+    if op == "present":
+        return tag.is_present
+    if op == "dump":
+        return list(tag.dump())
+    if op == "format":
+        return quiet(tag.format)
+    if op == "protect":
+        return quiet(tag.protect)
+    if op == "read":
+        return bytes(tag.read(4))
+    if op == "read-out":
+        return bytes(tag.read(out_page))
+    if op == "write-page":
+        return tag.write(6, bytearray(b"WXYZ"))
+    right, wrong = RE_PW[spec.get("pw", "factory")]
+    if op == "auth":
+        return tag.authenticate(right)
+    if op == "auth-wrong":
+        return tag.authenticate(wrong)
+    if op == "protect-pw":
+        return quiet(tag.protect, right)
+    if op == "protect-pw-read":
+        return quiet(tag.protect, right, True, 5)
+    raise ValueError(op)
+
+
+_re_ref = {}
+
+
+def run_reactivation(spec, ops, plan):
+    """the history on one tag object; plan None = the fault-free rehearsal
+    (memoised, it is a pure function of spec and ops)"""
+    key = repr((spec, ops))
+    if plan is None and key in _re_ref:
+        return _re_ref[key]
+    made = re_sim(spec)
+    if made is None:
+        return None
+    sim, out_page = made
+    field = _Field(sim)
+    clf, tag = tagdev.activate(field, budget=30000)
+    if not isinstance(tag, nfc.tag.tt2.Type2Tag):
+        raise Violation("activation-failed", "%r -> %r" % (spec, tag))
+    field.arm(plan)
+    h = Fx()
+    h.tag = type(tag).__name__
+    h.outs, h.starts, h.hit_at = [], [], []
+    for op in ops:
+        h.starts.append(len(field.events))
+        h.hit_at.append(field.hits)
+        try:
+            o = ("ok", re_op(tag, op, spec, out_page))
+        except nfc.tag.TagCommandError as e:
+            o = ("tce", e.errno, e)
+        except tagdev.BudgetExceeded:
+            raise Violation("excessive-retries", "history %r: more than "
+                            "30000 exchanges" % (ops,))
+        except Exception as e:
+            o = ("other", e)
+        h.outs.append(o)
+    h.events, h.hits, h.polls = field.events, field.hits, field.polls
+    h.target_known = tag.target is not None
+    if plan is None:
+        if len(_re_ref) > 256:
+            _re_ref.clear()
+        _re_ref[key] = h
+    return h
+
+
+def check_reactivation(case, ctx):
+    spec, ops, plan = case["tag"], list(case["ops"]), case["plan"]
+    fam = spec["fam"] if spec["fam"] != "ntag" else spec["product"].lower()
+    ctx.set_class("reactivate/" + fam)
+    ref = run_reactivation(spec, ops, None)
+    if ref is None:
+        ctx.label("layout-without-room")
+        return
+    ctx.label("reactivate:" + ref.tag)
+    for op, o in zip(ops, ref.outs):
+        if o[0] == "other":
+            ctx.set_class("reactivate/%s/%s" % (fam, op))
+            raise unexpected(o[1], "fault-free-op-raises",
+                             detail="history %r" % (ops,))
+    polls = [i for i, (k, _) in enumerate(ref.events) if k == "poll"]
+    naks = [i for i, (k, refused) in enumerate(ref.events)
+            if k == "cmd" and refused]
+    ctx.label("reactivate:%s-re-activations-in-history" % (
+        "no" if not polls else "with"))
+    sel = plan["sel"]
+    mode = plan["mode"]
+    if mode == "poll" and not polls:
+        # nothing to fail: the tag leaves at an event position instead
+        mode, sel = "leave", ["abs", sel[1]]
+    if mode == "poll":
+        at = sel[1] % len(polls)
+        where = "re-activation %d of %d" % (at, len(polls))
+    elif sel[0] == "poll" and polls:
+        at = polls[sel[1] % len(polls)] + sel[2]
+        where = "event %d (re-activation poll %+d)" % (at, sel[2])
+    elif sel[0] == "nak" and naks:
+        at = naks[sel[1] % len(naks)] + sel[2]
+        where = "event %d (refused command %+d)" % (at, sel[2])
+    elif sel[0] == "op" and len(ops) > 1:
+        j = 1 + sel[1] % (len(ops) - 1)
+        at = ref.starts[j] + sel[2]
+        where = "event %d (start of operation %d %+d)" % (at, j, sel[2])
+    else:
+        at = sel[1] % max(1, len(ref.events))
+        where = "event %d" % at
+    at = max(0, at)
+    how = plan["how"] if mode == "poll" else "leaves"
+    span = plan["span"]
+    ctx.label("reactivate:%s:%s:%s" % (
+        mode, how, "for-good" if span == 0 else "%d-times" % span))
+    run = run_reactivation(spec, ops, {"mode": mode, "at": at, "span": span,
+                                       "how": plan["how"]})
+    what = "history %r on one %s object (%r), %s: %s %s" % (
+        ops, run.tag, spec, where,
+        "tag not found" if how == "none" else
+        "tag out of the field" if how == "leaves" else
+        how + " error in sense()",
+        "from then on" if span == 0 else "for %d %s" % (
+            span, "polls" if mode == "poll" else "events"))
+    if not run.hits:
+        ctx.label("reactivate:fault-not-reached")
+        return
+    # the operation that met the fault, and those that started after it
+    j = max(i for i in range(len(ops)) if run.hit_at[i] == 0)
+    if [o[0:2] for o in run.outs[:j]] != [o[0:2] for o in ref.outs[:j]]:
+        raise HarnessError("history %r is not deterministic: the steps "
+                           "before the fault differ" % (ops,))
+    ctx.label("reactivate:hit-during:" + ops[j])
+    if j + 1 < len(ops):
+        ctx.nontrivial()
+    gone = mode == "leave" and span == 0
+    for i in range(j, len(ops)):
+        o = run.outs[i]
+        cls = "reactivate/%s/%s" % (fam, ops[j]) if i == j else \
+            "reactivate/%s/%s-after-%s" % (fam, ops[i], ops[j])
+        # (a) the documented result or TagCommandError
+        if o[0] == "other":
+            ctx.set_class(cls)
+            raise unexpected(
+                o[1], "raw-or-unrelated-exception",
+                detail="%s: operation %d (%s); the tag object %s" % (
+                    what, i, ops[i], "still names a target" if
+                    run.target_known else "knows the target is gone"))
+        if ops[i] == "present" and o[0] == "ok":
+            if o[1] is not True and o[1] is not False:
+                ctx.set_class(cls)
+                raise Violation("is-present-not-bool", "%s: %r" % (what, o[1]))
+            if o[1] is True and gone and i > j:
+                ctx.set_class(cls)
+                raise Violation("present-although-gone",
+                                "%s: operation %d is_present -> True" % (
+                                    what, i))
+        ctx.label("reactivate:%s:%s" % (
+            "faulted-step" if i == j else "later-step",
+            o[0] if o[0] != "ok" else "returned"))
+    ctx.note({"tag": run.tag, "events": len(run.events), "at": at,
+              "hits": run.hits, "faulted": ops[j]})
+
+
+RE_T2 = {"fam": "t2t", "desc": T2, "old": ["abs", 21], "phys_cut": 0}
+RE_UL = {"fam": "ul", "old": ["abs", 21], "phys_cut": 0,
+         "desc": {"kind": "t2t", "size": 6, "extra": 0, "nulls": 0,
+                  "filler": 0, "ctrl": []}}
+RE_NTAG = {"fam": "ntag", "product": "NTAG213", "auth0": 0xFF, "prot": False,
+           "pw": "factory", "ndef": 20, "nak": "byte"}
+RE_FIXTURES = [
+    RE_T2, dict(RE_T2, phys_cut=16), RE_UL, RE_NTAG,
+    dict(RE_NTAG, auth0=8, prot=True, pw="custom", ndef=40),
+    dict(RE_NTAG, product="NTAG210", auth0=6, prot=True, ndef=30),
+    dict(RE_NTAG, product="NTAG215", auth0=0x10, prot=False, pw="custom",
+         nak="mute"),
+]
+
+
+def enum_reactivation(tier, seed):
+    quick = tier == "quick"
+    firsts = ["dump", "read-out", "ndef", "protect-pw", "auth-wrong"]
+    follows = ["present", "read", "changed", "write", "write-page", "dump",
+               "format", "protect", "auth"]
+    if not quick:
+        firsts += ["changed", "protect-pw-read", "write"]
+        follows += ["ndef", "read-out", "protect-pw", "auth-wrong"]
+    count = 0
+    for spec in RE_FIXTURES:
+        for first in firsts:
+            ref = run_reactivation(spec, [first], None)
+            if ref is None:
+                continue
+            npolls = sum(1 for k, _ in ref.events if k == "poll")
+            for r in range(npolls):
+                plans = [{"mode": "poll", "sel": ["poll", r], "span": 1,
+                          "how": "none"},
+                         {"mode": "leave", "sel": ["poll", r, 0], "span": 0,
+                          "how": "none"},
+                         {"mode": "leave", "sel": ["poll", r, -1], "span": 0,
+                          "how": "none"},
+                         {"mode": "leave", "sel": ["poll", r, 0], "span": 2,
+                          "how": "none"}]
+                for follow in follows:
+                    count += 1
+                    # quick: the error kind rotates (it never reaches the
+                    # tag object: sense() answers None for all of them)
+                    kinds = [KINDS[(count + seed) % 3]] if quick else KINDS
+                    for plan in plans + [
+                            {"mode": "poll", "sel": ["poll", r],
+                             "span": sp, "how": kind}
+                            for kind in kinds
+                            for sp in ((1,) if quick else (1, 0))]:
+                        yield {"tag": spec, "ops": [first, follow],
+                               "plan": plan}
+                        if not quick:
+                            yield {"tag": spec,
+                                   "ops": [first, follow, "present"],
+                                   "plan": plan}
+
+
+def gen_reactivation(tier):
+    t2 = tc.t2t_desc().map(lambda d: dict(d, size=min(d["size"], 40)))
+    generic = st.fixed_dictionaries({
+        "fam": st.sampled_from(["t2t", "t2t", "ul"]), "desc": t2,
+        "old": tc.hist_len(False),
+        "phys_cut": st.sampled_from([0, 0, 0, 8, 16, 64])}).map(
+        lambda d: dict(d, desc=dict(d["desc"], size=6, extra=0, ctrl=[]))
+        if d["fam"] == "ul" else d)
+    ntag = st.sampled_from(sorted(simntag.PRODUCTS)).flatmap(
+        lambda p: st.fixed_dictionaries({
+            "fam": st.just("ntag"), "product": st.just(p),
+            "auth0": st.one_of(st.just(0xFF), st.integers(
+                3, simntag.PRODUCTS[p][1] + 1)),
+            "prot": st.booleans(),
+            "pw": st.sampled_from(["factory", "custom"]),
+            "ndef": st.integers(0, 40),
+            "nak": st.sampled_from(["byte", "byte", "mute"])}))
+    weighted = ["dump"] * 3 + ["read-out"] * 3 + ["ndef", "changed",
+        "changed", "write", "present", "present", "format", "protect",
+        "read", "write-page", "auth", "auth-wrong", "auth-wrong",
+        "protect-pw", "protect-pw", "protect-pw-read"]
+    near = st.sampled_from([-1, 0, 0, 0, 1, 2])
+
+    @st.composite
+    def s(draw):
+        spec = draw(st.one_of(generic, ntag, ntag))
+        n = draw(st.integers(2, 6))
+        ops = [draw(st.sampled_from(weighted)) for _ in range(n)]
+        mode = draw(st.sampled_from(["poll", "poll", "leave", "leave",
+                                     "leave"]))
+        idx = draw(st.one_of(st.integers(0, 5), st.integers(0, 300)))
+        if mode == "poll":
+            sel = ["poll", idx]
+        else:
+            sel = draw(st.sampled_from(
+                [["poll", idx, 0], ["nak", idx, 0], ["op", idx, 0],
+                 ["abs", idx]]))
+            if len(sel) == 3:
+                sel = [sel[0], sel[1], draw(near)]
+        return {"tag": spec, "ops": ops,
+                "plan": {"mode": mode, "sel": sel,
+                         "span": draw(st.sampled_from([0, 0, 0, 1, 2, 3, 6])),
+                         "how": draw(st.sampled_from(("none",) + KINDS))}}
+    return s()
+
+
 LEGS = [
     Leg("enum", run=run, enum=enum_faults, exhaustive=True, shards_quick=12,
         shards_thorough=16,
@@ -1010,6 +1413,49 @@ LEGS = [
              "command/response lost) at a generated command position of a "
              "generated operation; oracles and non-trivial rule as in "
              "felica_hist_enum."),
+    Leg("reactivate_enum",
+        run=lambda case, ctx: check_reactivation(case, ctx),
+        enum=enum_reactivation, exhaustive=True, shards_quick=4,
+        shards_thorough=16,
+        rule="ONE Type 2 tag object (generic Type2Tag small / with less "
+             "physical memory than the CC declares, Mifare Ultralight, "
+             "NTAG213 open, NTAG213 / NTAG210 read protected from a page on, "
+             "NTAG215 with custom password and mute NAK): a first operation "
+             "out of {dump, read beyond the memory, tag.ndef, "
+             "protect(password), authenticate(wrong password)} (thorough: "
+             "also NDEF re-read, protect(password, read_protect), NDEF "
+             "write) and for EVERY re-activation (clf.sense by the tag code) "
+             "of its fault-free run: the tag is not found once / a timeout, "
+             "transmission or protocol error is raised by the driver's "
+             "sense (quick: the kind rotates; thorough: every kind, once "
+             "and from then on) / the tag has left the field for good with "
+             "that poll / with the command before it / for 2 events; then "
+             "one more operation out of {is_present, read, NDEF re-read, "
+             "NDEF write, page write, dump, format, protect, authenticate} "
+             "(thorough: four more, and is_present as a third step).  "
+             "Oracle on every operation from the faulted one on: the "
+             "documented result or nfc.tag.TagCommandError; is_present is a "
+             "bool and False once the tag is gone for good.  non-trivial = "
+             "an operation started after the fault took effect."),
+    Leg("reactivate", run=lambda case, ctx: check_reactivation(case, ctx),
+        gen=gen_reactivation, quick=1500, thorough=40000, shards_quick=4,
+        shards_thorough=16, nt_floor=0.15,
+        rule="generated Type 2 tags (C01 layouts as generic Type2Tag or "
+             "Mifare Ultralight, optionally with 8..64 byte less physical "
+             "memory than declared; NTAG210/212/213/215/216 x AUTH0 x PROT x "
+             "factory/custom password x NAK as byte or silence) x 2-6 "
+             "operations on ONE tag object out of {tag.ndef, NDEF re-read, "
+             "NDEF write, is_present, dump, format, protect, "
+             "protect(password[, read_protect]), authenticate right/wrong "
+             "password, read inside / beyond the memory, page write} x fault: "
+             "the n-th re-activation poll of the fault-free rehearsal fails "
+             "(tag not found | timeout | transmission | protocol error in "
+             "sense) for 1,2,3,6 polls or from then on, OR the tag is out "
+             "of the field from an event position (commands and polls "
+             "counted; next to a re-activation poll, next to a refused "
+             "command, at the start of a later operation, anywhere) for "
+             "1,2,3,6 events or for good.  Oracles and non-trivial rule as "
+             "in reactivate_enum."),
     Leg("mem_hist", run=lambda case, ctx: check_mem_history(case, ctx),
         gen=gen_mem_history, quick=1200, thorough=40000, shards_quick=8,
         shards_thorough=16, nt_floor=0.15,
